@@ -10,9 +10,42 @@
 #include "kit.h"
 #include "worlds.h"
 #include "world_builder/verif_hooks.h"
+// The tool's source is compiled into this harness with std::atomic mapped onto the scheduler's hooked atomic, so that a thread pool
+// which hands out work through atomics gets a scheduling point at each of them. Every standard header the tool (or a change to it) is
+// likely to use is included first: the mapping must only touch the tool's own code.
+#include <algorithm>
+#include <array>
+#include <atomic>
+#include <cfenv>
+#include <chrono>
+#include <cmath>
+#include <condition_variable>
+#include <deque>
+#include <fstream>
+#include <functional>
+#include <future>
+#include <iostream>
+#include <iterator>
+#include <limits>
+#include <list>
+#include <memory>
+#include <mutex>
+#include <numeric>
+#include <queue>
+#include <shared_mutex>
+#include <sstream>
+#include <string>
+#include <thread>
+#include <vector>
+#include "vtu11/vtu11.hpp"
+#undef max
+#undef min
+namespace std { template <typename V> using verif_hooked_atomic = ::sched::atomic_hook<V>; }
+#define atomic verif_hooked_atomic
 #define main gwb_grid_main
 #include "gwb-grid/main.cc"
 #undef main
+#undef atomic
 using namespace kit;
 using namespace wbgen;
 
@@ -23,7 +56,11 @@ namespace
   {
     static const int c_calls = Ctx::counter_id("parallel_for_calls");
     const size_t T = static_cast<size_t>(idx % 40) + 1;
-    const size_t n = static_cast<size_t>(idx / 40);
+    // n runs through 0..nmax, then through sizes around the powers of two a pool might treat specially
+    static const size_t EXTRA_N[] = {1022, 1023, 1024, 1025, 1026, 1331, 2047, 2048, 2049, 3000, 4095, 4096, 4097, 4913, 10000};
+    const size_t nmax = static_cast<size_t>(G().tier == "thorough" ? 2000 : 256);
+    const size_t ni = static_cast<size_t>(idx / 40);
+    const size_t n = ni <= nmax ? ni : EXTRA_N[ni - nmax - 1];
     for (size_t start : {static_cast<size_t>(0), static_cast<size_t>(3)})
       {
         std::vector<std::atomic<int>> visits(n + start + 2);
@@ -43,6 +80,48 @@ namespace
       }
     if (n > 0 && T > 1) ctx.nontrivial();
     if (idx % 3001 == 7) ctx.sample(JObj().str("suite", "partition").integer("n", static_cast<long long>(n)).integer("threads", static_cast<long long>(T)).done());
+  }
+
+  // ---------- (a2) the thread pool alone under the scheduler ----------
+  // parallel_for with a trivial body: the scheduling points are thread creation / join / exit plus every mutex and atomic operation the pool uses.
+  struct PCfg { size_t threads, n; int bound; };
+  void run_psched(const std::vector<PCfg> &cfgs, uint64_t idx, Ctx &ctx)
+  {
+    static const int c_ex = Ctx::counter_id("schedules_executed"), c_pts = Ctx::counter_id("scheduling_points"), c_pre = Ctx::counter_id("schedules_with_preemption");
+    const PCfg &pc = cfgs[idx];
+    const size_t start = idx % 2 ? 3 : 0;
+    std::vector<int> visits;
+    const std::function<void()> body = [&]()
+    {
+      visits.assign(pc.n + start + 2, 0);
+      ThreadPool pool(pc.threads);
+      pool.parallel_for(start, start + pc.n, [&](size_t i) { if (i < visits.size()) ++visits[i]; else visits.back() += 1000; });
+    };
+    sched::Stats st;
+    const double t_end = G().deadline;
+    bool reported = false;
+    sched::explore(body, pc.bound, [&](const sched::Trace &x)
+    {
+      ctx.eval();
+      std::string bad;
+      for (size_t i = 0; i < visits.size() && bad.size() < 200; ++i)
+        {
+          const int expect = (i >= start && i < start + pc.n) ? 1 : 0;
+          if (visits[i] != expect) bad += (bad.empty() ? "" : ",") + std::to_string(i) + ":" + std::to_string(visits[i]);
+        }
+      if (!bad.empty() && !reported)
+        {
+          reported = true;
+          std::string ch;
+          for (int c : x.choices()) ch += (ch.empty() ? "" : ",") + std::to_string(c);
+          ctx.violation("C14/partition-under-scheduler/index-not-visited-exactly-once", JObj().integer("range_start", static_cast<long long>(start)).integer("n", static_cast<long long>(pc.n))
+                        .integer("threads", static_cast<long long>(pc.threads)).integer("preemption_bound", pc.bound).str("index:visits (unexpected only)", bad).raw("schedule_choices", "[" + ch + "]").done());
+        }
+    }, st, [&]() { return reported || now() > t_end; });
+    ctx.count(c_ex, st.executions); ctx.count(c_pts, st.points); ctx.count(c_pre, st.preempting_executions);
+    if (now() > t_end) ctx.w->deadline_hit = ctx.w->deadline_hit + 1;
+    if (st.executions > 1) ctx.nontrivial();
+    if (idx % 7 == 1) ctx.sample(JObj().str("suite", "psched").integer("threads", static_cast<long long>(pc.threads)).integer("n", static_cast<long long>(pc.n)).integer("bound", pc.bound).integer("schedules", static_cast<long long>(st.executions)).done());
   }
 
   // ---------- (b) schedules ----------
@@ -103,8 +182,10 @@ namespace
       probes2 = worlds::lattice2(cf.spherical);
       seq.resize(static_cast<size_t>(cf.nodes));
       got.resize(static_cast<size_t>(cf.nodes));
+      // the sequential answers: every node in a brand-new thread, so that nothing a thread keeps between two queries (thread-local scratch) can shape them
       WorldBuilder::World w(file, false, "", 1, true);
-      for (int i = 0; i < cf.nodes; ++i) seq[static_cast<size_t>(i)] = node_query(w, cf.spherical, probes, probes2, static_cast<size_t>(i));
+      for (int i = 0; i < cf.nodes; ++i)
+        std::thread([&, i]() { seq[static_cast<size_t>(i)] = node_query(w, cf.spherical, probes, probes2, static_cast<size_t>(i)); }).join();
       body = [this]()
       {
         // a brand-new world for every execution: executions are independent and replayable
@@ -191,7 +272,8 @@ namespace
     ctx.count(c_ex, st.executions); ctx.count(c_pts, st.points); ctx.count(c_pre, st.preempting_executions);
     // states: observable outcome of an execution = completion order of the nodes (per configuration)
     for (auto &ord : orders) { uint64_t hh = fnv(ord.data(), ord.size()*sizeof(int)); hh = fnv(&u.cfg, sizeof u.cfg, hh); ctx.key("completion_orders", hh); }
-    if (now() > t_end) ctx.violation("harness/schedule-exploration-cut-by-deadline", JObj().integer("executions", static_cast<long long>(st.executions)).done());
+    // a subtree that the global deadline cut short is not an alarm: it is recorded as not completed (evidence: exhaustive=false, cases_cut_by_deadline)
+    if (now() > t_end) ctx.w->deadline_hit = ctx.w->deadline_hit + 1;
     if (st.preempting_executions > 0 || u.point >= 0) ctx.nontrivial();
     if (idx % 29 == 1)
       ctx.sample(JObj().str("suite", "sched").integer("workers", cf.workers).integer("nodes", cf.nodes).integer("preemption_bound", cf.bound).boolean("spherical", cf.spherical)
@@ -205,7 +287,7 @@ namespace
     const std::string log = G().rundir + "/tsan" + std::to_string(idx) + ".log";
     std::string cmd;
     if (idx == 0)
-      cmd = "TSAN_OPTIONS='halt_on_error=0 report_signal_unsafe=0 exitcode=66' /verif/build/tsan/bin/C14_tsan " + G().rundir + " " + (thorough ? "12" : "4") + " 8 " + (thorough ? "2000" : "400");
+      cmd = "TSAN_OPTIONS='halt_on_error=0 report_signal_unsafe=0 exitcode=66' /verif/build/tsan/bin/C14_tsan " + G().rundir + " " + (thorough ? "16" : "8") + " 8 " + (thorough ? "1500" : "200");
     else
       {
         // the TSan build of the real tool on the repository's own grid set-ups, 4 threads
@@ -237,8 +319,9 @@ namespace
   }
 
   // ---------- (d) -j independence of the real tool ----------
-  struct Grid { const char *name; const char *text; bool spherical; };
-  const Grid GRIDS[8] =
+  struct Grid { const char *name; const char *text; bool spherical; int world = 0; };   // world 1: mass conserving slabs with splines of different sizes
+  const int NGRIDS = 11;
+  const Grid GRIDS[NGRIDS] =
   {
     {"c2_3x3", "grid_type = cartesian\ndim = 2\ncompositions = 3\nvtu_output_format = ASCII\nx_min = -450e3\nx_max = 350e3\nz_min = 400e3\nz_max = 1000e3\nn_cell_x = 3\nn_cell_z = 3\n", false},
     {"c2_1x1", "grid_type = cartesian\ndim = 2\ncompositions = 2\nvtu_output_format = ASCII\nx_min = 0\nx_max = 350e3\nz_min = 800e3\nz_max = 1000e3\nn_cell_x = 1\nn_cell_z = 1\n", false},
@@ -248,12 +331,17 @@ namespace
     {"chunk3", "grid_type = chunk\ndim = 3\ncompositions = 3\nvtu_output_format = ASCII\nx_min = -4\nx_max = 4\ny_min = -3\ny_max = 3\nz_min = 5771e3\nz_max = 6371e3\nn_cell_x = 3\nn_cell_y = 3\nn_cell_z = 3\n", true},
     {"annulus", "grid_type = annulus\ndim = 2\ncompositions = 3\nvtu_output_format = ASCII\nx_min = -25\nx_max = 25\ny_min = -25\ny_max = 25\nz_min = 4371000\nz_max = 6371000\nn_cell_x = 3\nn_cell_y = 3\nn_cell_z = 3\n", true},
     {"sphere", "grid_type = sphere\ndim = 3\ncompositions = 2\nvtu_output_format = ASCII\nx_min = -25\nx_max = 25\ny_min = -25\ny_max = 25\nz_min = 4371000\nz_max = 6371000\nn_cell_x = 2\nn_cell_y = 2\nn_cell_z = 2\n", true},
+    // more than 1024 nodes (a pool may treat short loops differently), and slabs whose thermal model keeps a workspace (two spline sizes in one world)
+    {"c3_10x10x10", "grid_type = cartesian\ndim = 3\ncompositions = 2\nvtu_output_format = ASCII\nx_min = -450e3\nx_max = 450e3\ny_min = -300e3\ny_max = 300e3\nz_min = 500e3\nz_max = 1000e3\nn_cell_x = 10\nn_cell_y = 10\nn_cell_z = 10\n", false, 0},
+    {"c3_splines_12x9x8", "grid_type = cartesian\ndim = 3\ncompositions = 2\nvtu_output_format = ASCII\nx_min = -480e3\nx_max = 420e3\ny_min = -350e3\ny_max = 460e3\nz_min = 650e3\nz_max = 1000e3\nn_cell_x = 12\nn_cell_y = 9\nn_cell_z = 8\n", false, 1},
+    {"c2_splines_40x12", "grid_type = cartesian\ndim = 2\ncompositions = 2\nvtu_output_format = ASCII\nx_min = 0\nx_max = 900e3\nz_min = 650e3\nz_max = 1000e3\nn_cell_x = 40\nn_cell_z = 12\n", false, 1},
   };
   std::string slurp(const std::string &p) { std::ifstream f(p, std::ios::binary); std::stringstream ss; ss << f.rdbuf(); return ss.str(); }
   std::map<std::string,std::string> run_grid(const Grid &g, int j, const std::string &dir, bool &ok, std::string &msg)
   {
     (void)!system(("rm -rf " + dir + " && mkdir -p " + dir).c_str());
     worlds::Opt o; o.spherical = g.spherical; o.cross_section = true;
+    if (g.world == 1) { o.slab_model = 2; o.second_slab = true; }
     { std::ofstream f(dir + "/w.wb"); f << worlds::rich(o); }
     { std::ofstream f(dir + "/g.grid"); f << g.text; }
     const std::string cmd = "cd " + dir + " && /verif/build/rel/bin/gwb-grid -j " + std::to_string(j) + " --filtered --by-tag w.wb g.grid > out.log 2>&1";
@@ -308,7 +396,7 @@ int main(int argc, char **argv)
   spec.rule = "partition: every (n, thread count) pair in the stated range through the real ThreadPool::parallel_for; sched: for each harness configuration ALL schedules with at most k preemptions "
               "(iterative context bounding over the yield hooks in World::properties plus interposed pthread_create/join), every execution on a brand-new world, results compared bit-for-bit with "
               "the sequential answers, one recorded schedule replayed and required to reproduce; tsan: the same bodies free-running in the ThreadSanitizer build; jindep: the real gwb-grid for every "
-              "-j in 1..40 on 8 grids, all output files byte-identical to -j 1. non-trivial: more than one thread / more than one observed completion order";
+              "-j in 1..40 on 11 grids, all output files byte-identical to -j 1. non-trivial: more than one thread / more than one observed completion order";
   spec.assumptions = {"scheduling points: pthread_create, pthread_join, thread exit and the three GWB_VERIF_YIELD sites of World::properties; code between two points runs atomically under the scheduler, "
                       "unsynchronised accesses inside such a stretch are the job of the free-running TSan pass", "sequential consistency (the scheduler serialises threads); weaker memory orderings are covered only by TSan's happens-before analysis",
                       "worlds without random models"
@@ -327,8 +415,19 @@ int main(int argc, char **argv)
     const bool th = tier == "thorough";
     std::vector<Suite> s;
     {
-      Suite a; a.name = "partition"; a.n = static_cast<uint64_t>((th ? 2001 : 257)) * 40; a.run = run_partition;
-      a.bound = std::string("every n in 0..") + (th ? "2000" : "256") + " x every thread count 1..40, range starts 0 and 3";
+      Suite a; a.name = "partition"; a.n = static_cast<uint64_t>((th ? 2001 : 257) + 15) * 40; a.run = run_partition;
+      a.bound = std::string("every n in 0..") + (th ? "2000" : "256") + " and 15 sizes around 1024, 2048, 4096 up to 10000 x every thread count 1..40, range starts 0 and 3";
+      s.push_back(a);
+    }
+    {
+      auto pc = std::make_shared<std::vector<PCfg>>();
+      for (size_t T : {static_cast<size_t>(2), static_cast<size_t>(3), static_cast<size_t>(4)})
+        for (size_t n : {static_cast<size_t>(0), static_cast<size_t>(1), static_cast<size_t>(2), static_cast<size_t>(3), static_cast<size_t>(7), static_cast<size_t>(1023), static_cast<size_t>(1025), static_cast<size_t>(2050), static_cast<size_t>(3100), static_cast<size_t>(5000)})
+          pc->push_back({T, n, T == 2 ? (th ? 4 : 3) : T == 3 ? (th ? 3 : 2) : (th ? 2 : 1)});
+      Suite a; a.name = "psched"; a.n = pc->size(); a.run = [pc](uint64_t i, Ctx &c) { run_psched(*pc, i, c); };
+      a.watchdog_s = 600;
+      a.bound = "the real ThreadPool::parallel_for with a counting body under the cooperative scheduler (scheduling points: thread create / join / exit, every mutex and std::atomic operation of the pool): threads {2,3,4} x n {0,1,2,3,7,1023,1025,2050,3100,5000}, "
+                "all schedules with <= " + std::string(th ? "4/3/2" : "3/2/1") + " preemptions; every index visited exactly once in every schedule";
       s.push_back(a);
     }
     {
@@ -350,8 +449,8 @@ int main(int argc, char **argv)
       s.push_back(a);
     }
     {
-      Suite a; a.name = "jindep"; a.n = 8*40; a.run = run_jindep;
-      a.bound = "8 grids (cartesian/chunk/annulus/sphere, 2-D/3-D, 4..336 nodes) x every -j in 1..40, with --filtered --by-tag";
+      Suite a; a.name = "jindep"; a.n = NGRIDS*40; a.run = run_jindep;
+      a.bound = "11 grids (cartesian/chunk/annulus/sphere, 2-D/3-D, 4..1331 nodes; two on a world with mass conserving slabs using splines of different sizes) x every -j in 1..40, with --filtered --by-tag";
       s.push_back(a);
     }
     return s;
